@@ -22,7 +22,17 @@ func EngineRun(p *Program, funcs map[string]jet.Func) (jetrun.Outcome, jet.VarMa
 	case "custom":
 		opts = append(opts, jet.WithSafeWriter(func(w io.Writer, b []byte) { w.Write(CustomEscape(b)) }))
 	}
-	s, _ := jetrun.NewSet(src, opts...)
+	first := src
+	if len(p.Late) > 0 {
+		first = map[string]string{}
+		for k, v := range src {
+			first[k] = v
+		}
+		for _, k := range p.Late {
+			delete(first, k)
+		}
+	}
+	s, loader := jetrun.NewSet(first, opts...)
 	s.AddGlobal("swCustom", jet.SafeWriter(func(w io.Writer, b []byte) {
 		f, _ := safeWriter("swCustom")
 		w.Write(f(b))
@@ -41,6 +51,25 @@ func EngineRun(p *Program, funcs map[string]jet.Func) (jetrun.Outcome, jet.VarMa
 	}
 	for k, f := range funcs {
 		vars.SetFunc(k, f)
+	}
+	if len(p.Late) > 0 {
+		func() {
+			defer func() { recover() }()
+			if t0, o0 := jetrun.Get(s, p.Entry); !o0.Failed() {
+				vars0 := jet.VarMap{}
+				for k, v := range vars {
+					vars0[k] = v
+				}
+				var data0 interface{}
+				if p.Data != nil {
+					data0 = Build(*p.Data)
+				}
+				_ = t0.Execute(io.Discard, vars0, data0)
+			}
+		}()
+		for _, k := range p.Late {
+			loader.Set(k, src[k])
+		}
 	}
 	t, o := jetrun.Get(s, p.Entry)
 	if o.Failed() {
